@@ -170,7 +170,13 @@ def check(case, obs):
             ev[r][c] = ev[r][c] ^ 1          # flip the lowest bit (stays within range: ranges are even)
             s2['events'] = ev
         elif ch in ('keyword', 'new_keyword'):
-            s2['extra'] = spec['extra'][:-1] + [['NOTE', 'aab']]
+            # another value of the same length: another letter, or the same letters with the blank elsewhere
+            spec['extra'] = spec['extra'][:-1] + [['NOTE', 'aa ']]
+            fcsgen.write(path, spec)
+            f1 = FlowCal.io.FCSFile(path)
+            f2 = FlowCal.io.FCSFile(path[:1] + path[1:])
+            s2 = dict(spec)
+            s2['extra'] = spec['extra'][:-1] + [['NOTE', 'aab' if case['row'] % 2 else ' aa']]
         else:
             s2['analysis'] = [['AKEY', 'bval']]
         obs.label('change:' + ch)
